@@ -241,6 +241,23 @@ fn main() {
         });
         sink.merge(sh);
     }
+    // opaque blobs whose bytes have a shape of their own (a length prefix, a list of one, DER with an ENUMERATED ...), in every
+    // message that carries one; CertificateStatus also over all 256 status types
+    {
+        let shapes = cat::content_shapes();
+        let mut msgs: Vec<W> = shapes.iter().flat_map(|b| cat::opaque_carriers(b)).collect();
+        for st in 0..=255u8 {
+            for b in shapes.iter().step_by(3) {
+                msgs.push(cat::hs(22, |w| {
+                    w.u8(st);
+                    w.block(3, "blob", |w| {
+                        w.bytes(b);
+                    });
+                }));
+            }
+        }
+        sink.merge(struct_sweep(&run, &[&MSG_HANDSHAKE], &msgs, 0, &sfx, 16, &no_extra));
+    }
     // lists of enumerated values whose bytes are a well-formed instance of another structure (a DER name list as signature
     // algorithms, an extension list as cipher suites, ...)
     sink.merge(struct_sweep(&run, &[&MSG_HANDSHAKE], &cat::enum_lists_with_foreign_content().0, 0, &sfx, 16, &no_extra));
